@@ -73,8 +73,9 @@ typedef KEY_TYPE element_type;
    swaps are done internally, the final result may come back in 'in' or 'work';
    and that pointer is returned.
 
-   radixsort_int is specific to signed n-byte ints, with natural machine
-   endianness.  `n` is determined based on ZODB_64BIT_INTS.
+   radixsort_int is specific to n-byte ints, with natural machine
+   endianness.  `n` is determined based on ZODB_64BIT_INTS; the keys are
+   signed unless ZODB_UNSIGNED_KEY_INTS is defined.
 */
 static element_type*
 radixsort_int(element_type *in, element_type *work, size_t n)
@@ -157,7 +158,14 @@ radixsort_int(element_type *in, element_type *work, size_t n)
 		/* Compute the correct output starting index for each possible
 		   byte value.
 		*/
+#ifdef ZODB_UNSIGNED_KEY_INTS
+		/* Unsigned keys: every byte, the MSB included, is
+		   distributed in plain ascending order.
+		*/
+		if (1) {
+#else
 		if (bytenum < sizeof(element_type) - 1) {
+#endif
 			for (i = 0; i < 256; ++i) {
 				const size_t icount = pcount[i];
 				index[i] = total;
